@@ -548,22 +548,29 @@ class Exec:
         raise Unsupported("unary op")
 
     def e_BoolOp(self, node, st):
-        # short-circuit: later operands are evaluated under the assumption of the earlier ones
-        mark = len(st.pc)
-        vals = []
-        terms = []
+        # short-circuit: later operands are evaluated under the assumption of the earlier ones; facts learned
+        # while evaluating an operand (callee postconditions, typing facts) are kept, guarded by that assumption
+        vals, terms, kept = [], [], []
+        guards = []
         for i, e in enumerate(node.values):
+            mark = len(st.pc)
+            st.pc += guards
+            inner = len(st.pc)
             v = self.eval(e, st)
+            learned = st.pc[inner:]
+            del st.pc[mark:]
+            g = z3.And(*guards) if guards else None
+            for f in learned:
+                kept.append(f if g is None else z3.Implies(g, f))
             vals.append(v)
             tv = self.truth(st, v)
             terms.append(tv)
             stv = z3.simplify(tv)
             if (isinstance(node.op, ast.Or) and z3.is_true(stv)) or (isinstance(node.op, ast.And) and z3.is_false(stv)):
                 break          # constant short-circuit: later operands are never evaluated
-            if i < len(node.values) - 1:
-                st.pc.append(tv if isinstance(node.op, ast.And) else z3.Not(tv))
-        del st.pc[mark:]
-        # facts learned while evaluating later operands hold only under the guard: re-add guarded
+            guards.append(tv if isinstance(node.op, ast.And) else z3.Not(tv))
+        if not self.spec or not self.binder_marks:
+            st.pc += kept
         if all(isinstance(v, VBool) for v in vals):
             return VBool(z3.And(*terms) if isinstance(node.op, ast.And) else z3.Or(*terms))
         # value-returning and/or (e.g. `a or b`): build an ite chain
@@ -606,12 +613,18 @@ class Exec:
             return self.eval(node.body, st)
         if z3.is_false(cs):
             return self.eval(node.orelse, st)
-        st.pc.append(c)
-        a = self.eval(node.body, st)
-        st.pc.pop()
-        st.pc.append(z3.Not(c))
-        b = self.eval(node.orelse, st)
-        st.pc.pop()
+        kept = []
+        for guard, sub in ((c, node.body), (z3.Not(c), node.orelse)):
+            mark = len(st.pc)
+            st.pc.append(guard)
+            val = self.eval(sub, st)
+            kept += [z3.Implies(guard, f) for f in st.pc[mark + 1:]]
+            del st.pc[mark:]
+            if sub is node.body:
+                a = val
+            else:
+                b = val
+        st.pc += kept
         return self.ite(st, c, a, b)
 
     def e_BinOp(self, node, st):
@@ -907,8 +920,10 @@ class Exec:
         if isinstance(base, VOpaque) and base.desc == "foreign":
             return VOpaque("foreign")
         if isinstance(base, VSeq):
-            i = as_int(idx)
+            i = z3.simplify(as_int(idx))
             if self.spec:
+                if z3.is_int_value(i) and i.as_long() < 0:
+                    i = base.ln + i
                 return self.seq_get(base, i)
             if z3.is_int_value(i) and i.as_long() < 0:
                 # constant negative index: from the end
@@ -1082,7 +1097,7 @@ class Exec:
             raise Unsupported("no location for attribute expression")
         if isinstance(node, ast.Subscript) and not isinstance(node.slice, ast.Slice):
             parent = self.loc_of(node.value, st)
-            idx = as_int(self.eval(node.slice, st))
+            idx = z3.simplify(as_int(self.eval(node.slice, st)))
             seq = self.read(st, parent)
             if isinstance(seq, VSeq):
                 if z3.is_int_value(idx) and idx.as_long() < 0:
